@@ -526,9 +526,16 @@ int main(int argc, char** argv) {
   if (thorough) {
     QS.push_back({0, 30.0, 0.1});
     QS.push_back({7, 10.0, 1.0});
+    QS.push_back({0, 10.0, 0.1});
+    QS.push_back({16, 10.0, 1.0});
   }
   const int nQ = (int)QS.size();
-  const int G = thorough ? 13 : 9;  // lattice points per axis
+  // lattice points per axis; `--lattice n` overrides it (used for the ASan run, where the interest is the
+  // library code over the whole argument cross product rather than the sampling density)
+  int latticeArg = 0;
+  for (int i = 1; i + 1 < argc; ++i)
+    if (!strcmp(argv[i], "--lattice")) latticeArg = atoi(argv[i + 1]);
+  const int G = latticeArg > 0 ? latticeArg : (thorough ? 19 : 11);
 
   // ================================================================ Cube and Tetrahedron
   {
@@ -813,9 +820,9 @@ int main(int argc, char** argv) {
         {"empty", {}},                                        // invalid
         {"emptycontour", {{}}},                               // invalid
     };
-    static const double DEG[] = {360, 180, 90, 45, 400};
+    static const double DEG[] = {360, 180, 90, 45, 400, 30};
     static const int SEG[] = {0, 3, 4, 5, 8};
-    std::vector<int> radix = {nQ, (int)POLY.size(), 5, 5};
+    std::vector<int> radix = {nQ, (int)POLY.size(), 6, 5};
     R.phase("revolve", product(radix), 1,
             [&](uint64_t idx, Ctx& c) {
               auto d = digits(idx, radix);
@@ -897,26 +904,30 @@ int main(int argc, char** argv) {
     static const double EDGE[] = {0.5, 0.3};
     static const double LEVEL[] = {0, 0.1, -0.1};
     static const double TOL[] = {-1, 1e-3};
-    std::vector<int> radix = {(int)SH.size(), 2, 3, 2};
+    static const double BND[2][6] = {{-3, -3, -3, 3, 3, 3}, {-2.6, -2.9, -2.2, 3.1, 2.7, 2.4}};
+    std::vector<int> radix = {(int)SH.size(), 2, 2, 3, 2};
     R.phase("levelset", product(radix), 1,
             [&](uint64_t idx, Ctx& c) {
               auto d = digits(idx, radix);
               const SdfShape& sh = SH[d[0]];
-              double edge = EDGE[d[1]], level = LEVEL[d[2]], tol = TOL[d[3]];
-              std::string key = "LevelSet(" + sh.name + ",bounds=[-3,3]^3,edge=" + fmt(edge) + ",level=" + fmt(level) + ",tol=" + fmt(tol) + ")";
+              const double* bd = BND[d[1]];
+              double edge = EDGE[d[2]], level = LEVEL[d[3]], tol = TOL[d[4]];
+              std::string key = "LevelSet(" + sh.name + ",bounds=" + (d[1] ? "[-2.6,3.1]x[-2.9,2.7]x[-2.2,2.4]" : "[-3,3]^3") + ",edge=" + fmt(edge) +
+                                ",level=" + fmt(level) + ",tol=" + fmt(tol) + ")";
               c.describe(key);
               Quality::ResetToDefaults();
-              Box bounds({-3, -3, -3}, {3, 3, 3});
+              Box bounds({bd[0], bd[1], bd[2]}, {bd[3], bd[4], bd[5]});
               Manifold m = Manifold::LevelSet(sh.f, bounds, edge, level, tol);
               if (!requireOk(c, key, m)) return;
-              // grid spacing: the bounds are divided into floor(size/edgeLength) cells per axis
-              double spacing = 6.0 / std::floor(6.0 / edge + 1e-9);
+              // grid spacing: each axis of the bounds is divided into floor(size/edgeLength) cells
+              double spacing = 0;
+              for (int a = 0; a < 3; ++a) spacing = std::max(spacing, (bd[a + 3] - bd[a]) / std::floor((bd[a + 3] - bd[a]) / edge + 1e-9));
               LD band = sqrtl(3.0L) * std::max(spacing, edge);  // one grid cell (its diagonal)
               Judge J(m);
               for (int i = 0; i < G + 2; ++i)
                 for (int j = 0; j < G + 2; ++j)
                   for (int k = 0; k < G + 2; ++k) {
-                    V3 p{latt(-3.2L, 3.2L, i, G + 2, 0), latt(-3.2L, 3.2L, j, G + 2, 1), latt(-3.2L, 3.2L, k, G + 2, 2)};
+                    V3 p{latt(-3.3L, 3.3L, i, G + 2, 0), latt(-3.3L, 3.3L, j, G + 2, 1), latt(-3.3L, 3.3L, k, G + 2, 2)};
                     double v = sh.f({(double)p.x, (double)p.y, (double)p.z}) - level;
                     J.at(p, v > band ? 1 : (v < -band ? 0 : SKIP));
                   }
@@ -959,7 +970,7 @@ int main(int argc, char** argv) {
   // ================================================================ transforms
   const std::vector<const char*> TN = {"configs", "points_judged", "points_inside", "exact_checked"};
   auto B = bases();
-  const int GT = thorough ? 10 : 7;
+  const int GT = latticeArg > 0 ? std::max(4, latticeArg - 1) : (thorough ? 12 : 8);
   {
     // single transforms: Rotate over {0,30,90,180,270,360,-90}^3 (includes all 24 axis rotations), Mirror, Scale,
     // Translate, Transform with 8 generic matrices, Warp by the orientation-preserving ones
